@@ -30,3 +30,17 @@ Proof.
   unfold rest_round. rewrite (rest_roundtrip doc ps ret H1 H2 H3 H4 H5). reflexivity.
 Qed.
 Print Assumptions C08_rest_text_fixpoint.
+
+(* ---- the announcer is stripped and re-appended every round (formats with emit_default_doc): the second line equals the first ----
+   For EVERY description d and default text t without the word "default", t kept whole by the scan and already free of code quotes
+   and blanks at its ends: emit (set_default_doc), parse with the announcer stripped (extract_default), emit again -- the line
+   written in round 2 is the line written in round 1 (the one change, the added full stop, happens in round 1 only). *)
+From CDD Require ExtractDefault ExtractDefaultProofs DefaultDoc.
+Theorem C08_announced_line_fixpoint : forall (strip : str -> str) (d t : str),
+  ExtractDefaultProofs.has_kw d = false -> ExtractDefaultProofs.has_kw t = false -> ExtractDefault.scan_default t false = t ->
+  ExtractDefaultProofs.strip3 t = t ->
+  let line1 := DefaultDoc.set_default_doc strip d (Some t) true in
+  let '(d1, t1) := ExtractDefault.extract_default_text line1 false in
+  DefaultDoc.set_default_doc strip d1 t1 true = line1.
+Proof. exact ExtractDefaultProofs.announced_line_fixpoint. Qed.
+Print Assumptions C08_announced_line_fixpoint.
